@@ -227,7 +227,8 @@ def sortDests (ds : List Dest) : List Dest := ds.mergeSort (fun a b => decide (a
 * `ZeroDivisionError`: `left / scale` in the first iteration of the page loop ⇔ `scale = 0` and there is a page;
 * `IndexError` / `AssertionError`: `make_page_bookmark_tree` (reached after the page loop);
 * `needsHtml` (variant `pdf/ua-1`): `pdfua` calls `document.build_element_structure` once per page stream, which reads
-  `document._html` → `AttributeError` on a document made by `Document.copy` (or by the constructor); with no page at
+  `document._html` → `AttributeError` on a document made by the constructor alone (no `_html`, or `None` on its
+  copies); with no page at
   all the loop variable `page_number` is read unbound after the loop (`UnboundLocalError`, carried as a
   `.noneAttribute` whose site starts with `UnboundLocalError`). -/
 def generatePdf (zoom : Rat) (needsHtml : Bool) (d : Document) : Except PyErr PdfOut :=
